@@ -88,36 +88,50 @@ Single(c) == [kind |-> "ok", x |-> <<c>>, w |-> <<One>>]
 
 Densities(type, xs, c, sigma) == [k \in 1..Len(xs) |-> Density(type, xs[k], c, sigma)]
 
+\* the values: [kind |-> "ok" | "undefined", x |-> the points that take part]
+Values(q) ==
+    LET sigma == Sigma(q.width, q.value, q.relative)
+        c == Centre(q.value, q.relative)
+    IN  IF Degenerate(sigma, q.n)
+        THEN IF InLimits(c, q.lb, q.ub) \/ Variant = "degenerate-ignores-limits"
+             THEN [kind |-> "ok", x |-> <<c>>] ELSE [kind |-> "ok", x |-> <<>>]
+        ELSE IF q.type \in PositiveTypes /\ ~Lt(Zero, c)
+        THEN [kind |-> "undefined", x |-> <<>>]
+        ELSE LET g == FullGrid(q.type, c, sigma, q.nsigma, q.n)
+             IN [kind |-> "ok", x |-> SelectSeq(g, LAMBDA v : Keep(q.type, v, c, sigma, q.lb, q.ub))]
+
+\* d = densities at the values that take part, s = the sum they are normalised by
+Representable(s) == IsFinite(s) /\ Lt(Zero, s)
+Normalised(d, s) == [k \in 1..Len(d) |-> Div(d[k], s)]
+
 \* weights.py:265-292 get_weights: values and weights normalised AFTER truncation
 \* ("those weights outside the bounds are excluded and the distribution is normalized such
 \*   that the sum of the remaining weights in the truncated distribution equal one")
 GetWeights(q) ==
     LET sigma == Sigma(q.width, q.value, q.relative)
         c == Centre(q.value, q.relative)
-    IN  IF Degenerate(sigma, q.n)
-        THEN IF InLimits(c, q.lb, q.ub) \/ Variant = "degenerate-ignores-limits"
-             THEN Single(c) ELSE Empty
-        ELSE IF q.type \in PositiveTypes /\ ~Lt(Zero, c)
-        THEN [kind |-> "undefined", x |-> <<>>, w |-> <<>>]
-        ELSE LET g == FullGrid(q.type, c, sigma, q.nsigma, q.n)
-                 xs == SelectSeq(g, LAMBDA v : Keep(q.type, v, c, sigma, q.lb, q.ub))
-                 d == IF Variant = "normalise-before-cut"
-                      THEN Densities(q.type, g, c, sigma) ELSE Densities(q.type, xs, c, sigma)
-                 dx == Densities(q.type, xs, c, sigma)
-                 s == Sum(d)
-             IN  IF Len(xs) = 0 THEN Empty
-                 ELSE IF ~(IsFinite(s) /\ Lt(Zero, s))
-                 THEN [kind |-> "unrepresentable", x |-> xs, w |-> <<>>]
-                 ELSE [kind |-> "ok", x |-> xs, w |-> [k \in 1..Len(xs) |-> Div(dx[k], s)]]
+        v == Values(q)
+    IN  IF v.kind # "ok" THEN [kind |-> v.kind, x |-> <<>>, w |-> <<>>]
+        ELSE IF Degenerate(sigma, q.n)
+        THEN [kind |-> "ok", x |-> v.x, w |-> [k \in 1..Len(v.x) |-> One]]
+        ELSE IF Len(v.x) = 0 THEN Empty
+        ELSE LET dx == Densities(q.type, v.x, c, sigma)
+                 s == IF Variant = "normalise-before-cut"
+                      THEN Sum(Densities(q.type, FullGrid(q.type, c, sigma, q.nsigma, q.n), c, sigma))
+                      ELSE Sum(dx)
+             IN  IF ~Representable(s) THEN [kind |-> "unrepresentable", x |-> v.x, w |-> <<>>]
+                 ELSE [kind |-> "ok", x |-> v.x, w |-> Normalised(dx, s)]
 
 -----------------------------------------------------------------------------
 (* direct_model.py:131-158 _pop_par_weights and sasview_model.py:833-858   *)
 (* _get_weights, for one parameter of a model table.                       *)
-(*   par = [ptype, lb, ub, default]                                        *)
+(*   par = [ptype, lb, ub, default, control]                               *)
 
 \* "The distribution width applied to volume parameters is relative to the center value ...
-\*  the distribution width applied to orientation parameters is just sigma = PD"
-Dispersible(ptype) == ptype \in {"volume", "orientation"}
+\*  the distribution width applied to orientation parameters is just sigma = PD".
+\* Size and angle parameters carry a distribution; a parameter that counts the entries of a
+\* vector parameter (number of shells ...) does not.
+Dispersible(par) == par.ptype \in {"volume", "orientation"} /\ ~par.control
 Relative(ptype) == ptype = "volume"
 
 Config(par, type, n, width, nsigma, value) ==
@@ -127,13 +141,13 @@ Config(par, type, n, width, nsigma, value) ==
 \* a = [value, n, width, nsigma, type, active]: the entries name, name_pd_n, name_pd,
 \* name_pd_nsigma, name_pd_type of the call (defaults already applied)
 PopParWeights(par, a) ==
-    IF ~Dispersible(par.ptype) THEN Single(a.value)
+    IF ~Dispersible(par) THEN Single(a.value)
     ELSE IF a.n = 0 \/ Eq(a.width, Zero) \/ ~a.active
     THEN Single(Centre(a.value, Relative(par.ptype)))     \* monodisperse short cut
     ELSE GetWeights(Config(par, a.type, a.n, a.width, a.nsigma, a.value))
 
 SasviewGetWeights(par, a) ==
-    IF ~Dispersible(par.ptype) THEN Single(a.value)
+    IF ~Dispersible(par) THEN Single(a.value)
     ELSE GetWeights(Config(par, a.type, a.n, a.width, a.nsigma, a.value))
 
 -----------------------------------------------------------------------------
@@ -177,21 +191,20 @@ ArgMaxFrom(d, k, best) ==
     IF k > Len(d) THEN best
     ELSE ArgMaxFrom(d, k + 1, IF Lt(d[best], d[k]) THEN k ELSE best)
 
-\* w_k * D(x_j) = w_j * D(x_k), with j a point of largest density
-Proportional(q, r) ==
-    (IsDegenerate(q) \/ Len(r.x) = 0) \/
-    LET c == CentreOf(q)
-        s == SigmaOf(q)
-        d == Densities(q.type, r.x, c, s)
-        j == ArgMaxFrom(d, 1, 1)
-        tol == PropTol(q.type, c, s, r.x)
+\* w_k * D(x_j) = w_j * D(x_k), with j a point of largest density; d = densities at r.x
+ProportionalTo(r, d, tol) ==
+    Len(r.x) = 0 \/
+    LET j == ArgMaxFrom(d, 1, 1)
     IN \A k \in 1..Len(r.x) : Near(Mul(r.w[k], d[j]), Mul(r.w[j], d[k]), tol)
+Proportional(q, r) ==
+    IsDegenerate(q) \/
+    ProportionalTo(r, Densities(q.type, r.x, CentreOf(q), SigmaOf(q)),
+                   PropTol(q.type, CentreOf(q), SigmaOf(q), r.x))
 
 \* the densities the weights must be proportional to, normalised (for reporting / comparison)
 Expected(q, xs) ==
     LET d == Densities(q.type, xs, CentreOf(q), SigmaOf(q))
-        s == Sum(d)
-    IN [k \in 1..Len(xs) |-> Div(d[k], s)]
+    IN Normalised(d, Sum(d))
 
 \* zero width or fewer than two points: the single central value with weight one
 \* (nothing at all when the centre itself is outside the hard limits)
